@@ -22,11 +22,12 @@ from ..syncrun import SyncRun, run_schedule
 from ..syncmodel import replay_behaviour
 
 FLAGS = ('\\Deleted', '\\Seen', '\\Flagged')
-CLAUSE_PROP = {'C01': 'C01_', 'C02': 'C02_', 'C16': 'C16_'}
+CLAUSE_PROP = {'C01': 'C01_', 'C02': 'C02_', 'C16': 'C16_', 'C17': 'C17_'}
+OBSERVER = {'C17': 'Trace_Recent'}
 
 # deviations of the tree as it is now (kept in step with known/*.json: a fixed
 # defect is removed here, so the model then predicts the repaired behaviour)
-ASIS_DEVS = ['CloseRONo', 'RecentToOwnRO', 'MoveIgnoresRO']
+ASIS_DEVS = ['CloseRONo', 'MoveIgnoresRO']
 
 
 def rand_set(rng, uidmode: bool, nmax: int = 5) -> str:
@@ -44,8 +45,11 @@ def rand_set(rng, uidmode: bool, nmax: int = 5) -> str:
     return f'{base + rng.randint(1, nmax)},{base + rng.randint(1, nmax)}'
 
 
-def rand_cmd(rng, weights=None) -> tuple:
+def rand_cmd(rng, weights=None, recent_flags: bool = False) -> tuple:
     w = weights or {}
+    store_flags = FLAGS + (('\\Recent', '\\Recent') if recent_flags else ())
+    app_flags = [(), (), ('\\Seen',), ('\\Deleted',)] + (
+        [('\\Recent',), ('\\Recent', '\\Seen')] if recent_flags else [])
     kinds = [('store', 30), ('fetch', 14), ('expunge', 10), ('uidexpunge', 4),
              ('noop', 8), ('append', 8), ('copy', 5), ('move', 6), ('search', 5),
              ('check', 2), ('select', 3), ('examine', 2), ('close', 2)]
@@ -59,26 +63,28 @@ def rand_cmd(rng, weights=None) -> tuple:
     um = rng.random() < 0.5
     if k == 'store':
         return ('store', um, rand_set(rng, um), rng.choice('++-='), rng.random() < 0.4,
-                (rng.choice(FLAGS),))
+                (rng.choice(store_flags),))
     if k == 'fetch':
         return ('fetch', um, rand_set(rng, um), rng.random() < 0.3)
     if k == 'uidexpunge':
         return ('uidexpunge', rand_set(rng, True))
     if k == 'append':
         return ('append', rng.choice(['INBOX', 'INBOX', 'Box']), rng.choice([1, 1, 2]),
-                rng.choice([(), (), ('\\Seen',), ('\\Deleted',)]))
+                rng.choice(app_flags))
     if k in ('copy', 'move'):
         return (k, um, rand_set(rng, um), rng.choice(['Box', 'Box', 'INBOX']))
     if k == 'search':
         return ('search', um, rng.choice(['ALL', 'DELETED', 'UNSEEN', '1:*']))
     if k in ('select', 'examine'):
-        return (k, 'INBOX')
+        return (k, rng.choice(['INBOX', 'INBOX', 'INBOX', 'Box']))
     return (k,)
 
 
 def random_schedule(rng, nsess: int, ncmds: int, idle: bool = False,
                     weights=None, ro_prob: float = 0.15, idle_prob: float = 0.25,
-                    gate_idlers: bool = False) -> tuple[list, list]:
+                    gate_idlers: bool = False, recent_flags: bool = False,
+                    fetch_after_select: bool = False, initial_select: float = 1.0
+                    ) -> tuple[list, list]:
     """A schedule in driver actions, decided step by step against the REAL run
     (the enabled actions depend on where the sessions are parked), so this
     returns a generator-like closure result: (sessions, driver)"""
@@ -86,7 +92,10 @@ def random_schedule(rng, nsess: int, ncmds: int, idle: bool = False,
 
     def drive(run: SyncRun):
         log = []
+        need_fetch = set()
         for s in sessions:
+            if rng.random() >= initial_select:
+                continue
             how = 'examine' if rng.random() < ro_prob else 'select'
             for cmd in ((how, 'INBOX'), ('fetch', False, '1:*', False)):
                 run.issue(s, cmd)
@@ -123,8 +132,17 @@ def random_schedule(rng, nsess: int, ncmds: int, idle: bool = False,
                     if gate_idlers:
                         # a slow client: every write of this session becomes a parking point
                         run.w.conns[s].writer.gate_drain = True
+                elif s in need_fetch:
+                    need_fetch.discard(s)
+                    cmd = ('fetch', False, '1:*', False)
                 else:
-                    cmd = rand_cmd(rng, weights)
+                    cmd = rand_cmd(rng, weights, recent_flags)
+                    if run.server_view(s) is None and cmd[0] not in (
+                            'select', 'examine', 'append', 'noop'):
+                        cmd = rng.choice([('select', 'INBOX'), ('examine', 'INBOX'),
+                                          ('select', 'Box'), ('append', 'INBOX', 1, ())])
+                if fetch_after_select and cmd[0] in ('select', 'examine'):
+                    need_fetch.add(s)
                 run.issue(s, cmd)
                 issued += 1
                 log.append(('issue', s, cmd))
@@ -143,6 +161,10 @@ def random_schedule(rng, nsess: int, ncmds: int, idle: bool = False,
             if s not in idlers:
                 run.finish(s)
                 log.append(('finish', s))
+                if s in need_fetch and run.can_issue(s):
+                    run.issue(s, ('fetch', False, '1:*', False))
+                    run.finish(s)
+                    log.append(('cmd', s, ('fetch', False, '1:*', False)))
         run.quiesce()
         if idlers:
             run.idlecheck()
@@ -239,6 +261,14 @@ def main(prop: str, tier: str) -> int:
                 rng, nsess, rng.randint(3, 8), idle=True, idle_prob=0.7,
                 gate_idlers=rng.random() < 0.7, ro_prob=0.1,
                 weights={'append': 25, 'expunge': 15, 'select': 0, 'examine': 0, 'close': 0})
+        elif prop == 'C17':
+            sessions, drive = random_schedule(
+                rng, 3 if rng.random() < 0.5 else 2, rng.randint(4, 10), idle=False,
+                ro_prob=0.35, recent_flags=True, fetch_after_select=True,
+                initial_select=0.5,
+                weights={'select': 14, 'examine': 10, 'close': 8, 'append': 22, 'copy': 12,
+                         'fetch': 6, 'store': 10, 'expunge': 3, 'move': 5, 'search': 0,
+                         'uidexpunge': 0, 'check': 0})
         else:
             sessions, drive = random_schedule(rng, nsess, rng.randint(3, 7), idle=idle,
                                               gate_idlers=rng.random() < 0.3)
@@ -255,7 +285,8 @@ def main(prop: str, tier: str) -> int:
         meta.append({'kind': 'random-schedule', 'schedule': log})
 
     # 4. TLC judges
-    verdicts, vres = tlc.validate_total('Trace_Sync.tla', 'Trace_Sync.cfg', traces)
+    obs = OBSERVER.get(prop, 'Trace_Sync')
+    verdicts, vres = tlc.validate_total(obs + '.tla', obs + '.cfg', traces)
     if len(verdicts) != len(traces):
         run.machinery('trace validation incomplete: ' + (vres.error or vres.output[-800:]))
         return run.finish()
@@ -264,11 +295,12 @@ def main(prop: str, tier: str) -> int:
     for i, ev in enumerate(traces, 1):
         line, clause = verdicts[i]
         mine = clause.startswith(prefix)
+        clause, _, detail = clause.partition(':')
         run.count_exec(signature(ev), nontrivial=nontrivial(ev), validated=not mine)
         if clause and not mine:
             other[clause] = other.get(clause, 0) + 1
         if mine:
-            sig = classify(prop, clause, ev, line)
+            sig = classify(prop, clause, ev, line, detail)
             run.violation(f'{clause} at event {line}: {ev[line - 1]}',
                           {'check': prop, 'meta': meta[i - 1], 'clause': clause,
                            'line': line, 'events': ev[max(0, line - 25):line]}, sig)
@@ -278,7 +310,51 @@ def main(prop: str, tier: str) -> int:
     return run.finish()
 
 
-def classify(prop, clause, events, line):
+def classify(prop, clause, events, line, detail=''):
     """signature of a failing execution for known-finding matching (narrow:
     derived from the failing history itself)"""
+    if clause == 'C17_FirstRWGetsIt' and detail.isdigit():
+        return 'StaleRecentPick' if stale_pick(events[:line], int(detail)) else None
     return None
+
+
+def stale_pick(events, uid: int) -> bool:
+    """True iff message `uid` was delivered by a command that was already in
+    flight (its `start` precedes) when the last read-write selection of the
+    destination mailbox ended: the session layer picked that selection as the
+    recipient of \\Recent before waiting for the mailbox lock."""
+    arr = None
+    for i, ev in enumerate(events):
+        if ev['e'] == 'arrive' and uid in ev['uids']:
+            arr = i
+    if arr is None:
+        return False
+    dest, by = events[arr]['dest'], events[arr].get('by')
+    start = None
+    for i in range(arr, -1, -1):
+        if events[i]['e'] == 'start' and events[i]['s'] == by:
+            start = i
+            break
+    if start is None:
+        return False
+    # which sessions had `dest` selected read-write when the delivering command started
+    sel = {}
+    for i, ev in enumerate(events[:start]):
+        if ev['e'] == 'tagged':
+            if ev['selected'] and not ev['ro']:
+                sel[ev['s']] = ev['mbx']
+            else:
+                sel.pop(ev['s'], None)
+        elif ev['e'] in ('bye', 'cancel', 'drop'):
+            sel.pop(ev['s'], None)
+    holders = {s for s, m in sel.items() if m == dest and s != by}
+    if not holders:
+        return False
+    # ... and each of them gave the selection up before the message landed
+    for ev in events[start:arr]:
+        if ev.get('s') in holders and (
+                (ev['e'] == 'start' and ev['k'] == 'select')
+                or (ev['e'] == 'tagged' and not (ev['selected'] and ev['mbx'] == dest))
+                or ev['e'] in ('bye', 'cancel', 'drop')):
+            holders.discard(ev['s'])
+    return not holders
